@@ -123,8 +123,9 @@ def q__do_OP_CHECKLOCKTIMEVERIFY(vm):
         raise ScriptError()
     if len(vm.stack[-1]) > 5:
         raise ScriptError()
+    top = vm.stack[-1]
     max_lock_time = vm.pop_int()
-    vm.push_int(max_lock_time)
+    vm.append(top)
     if max_lock_time < 0:
         raise ScriptError()
     era_max = max_lock_time >= 500000000
@@ -157,8 +158,9 @@ def q__do_OP_CHECKSEQUENCEVERIFY(vm):
         raise ScriptError()
     if len(vm.stack[-1]) > 5:
         raise ScriptError()
+    top = vm.stack[-1]
     sequence = vm.pop_int()
-    vm.push_int(sequence)
+    vm.append(top)
     if sequence < 0:
         raise ScriptError()
     if sequence & SEQUENCE_LOCKTIME_DISABLE_FLAG:
